@@ -611,7 +611,17 @@ def run_blackbox(case):
                     died(last)
                     return res
                 if err:
-                    V.append({"mech": "blackbox_probe_failed", "detail": err + " stderr tail: " + bb.stderr_text()[-300:]})
+                    time.sleep(1.0)
+                    err = bb.probe(last + " (second attempt)")
+                if not bb.alive():
+                    died(last)
+                    return res
+                if err:
+                    if "Traceback" in bb.stderr_text():
+                        V.append({"mech": "blackbox_probe_failed", "detail": err + " stderr tail: " + bb.stderr_text()[-300:]})
+                    else:
+                        # process alive, nothing on stderr, only a wall-clock wait expired twice: not a verdict
+                        res["inconclusive"] = "black-box probe timed out twice while the manager process was alive and silent: " + err
                     return res
                 C["probes_completed"] = C.get("probes_completed", 0) + 1
             if f["close"] is None:
@@ -638,10 +648,16 @@ def run_blackbox(case):
         for c in flood:
             c.close()
         err = bb.probe("after timers")
+        if err and bb.alive():
+            time.sleep(1.0)
+            err = bb.probe("after timers (second attempt)")
         if not bb.alive():
             died("after timers: " + last)
         elif err:
-            V.append({"mech": "blackbox_probe_failed", "detail": err})
+            if "Traceback" in bb.stderr_text():
+                V.append({"mech": "blackbox_probe_failed", "detail": err})
+            else:
+                res["inconclusive"] = "black-box probe timed out twice while the manager process was alive and silent: " + err
         else:
             C["probes_completed"] = C.get("probes_completed", 0) + 1
         txt = bb.stderr_text()
